@@ -463,7 +463,25 @@ pub fn run(ctx: &Ctx) -> Report {
                     rep.violation("fri_commit:large-last-layer", &b, json!({"kind": "fri", "spec": spec_json(&s, variant), "queries": [0]}));
                     continue;
                 }
-                for qs in query_sets(&s.params, 0, 0) {
+                // besides the structural family: many queries that stay distinct down to the last layer (63, 64, 65,
+                // 128, 129, 200, 300 points of the last layer, and the whole domain) - batch sizes of any per-query
+                // work in the last-layer check are crossed
+                let mut qsets = query_sets(&s.params, 0, 0);
+                {
+                    let size = 1usize << s.params.log_input_size();
+                    let fold: usize = 1usize << s.params.steps.iter().sum::<u32>();
+                    let last_points = size / fold;
+                    for count in [63usize, 64, 65, 128, 129, 200, 300] {
+                        if count <= last_points {
+                            // one query per last-layer point, spread over the domain, at varying offsets inside the coset
+                            qsets.push((0..count).map(|i| (i * (last_points / count)) * fold + (i % fold)).collect());
+                        }
+                    }
+                    if poly == 2 && size <= 1 << 11 {
+                        qsets.push((0..size).collect());
+                    }
+                }
+                for qs in qsets {
                     let inst = Instance::from(&prover, &prover.open(&qs));
                     let v = inst.verify();
                     rep.eval(&format!("honest-large-last-layer:{}", v.short()));
